@@ -2,13 +2,16 @@ module verifharness
 
 go 1.26.1
 
-require github.com/DrmagicE/gmqtt v0.0.0
+require (
+	github.com/DrmagicE/gmqtt v0.0.0
+	github.com/gorilla/websocket v1.4.2
+)
 
 require (
 	github.com/beorn7/perks v1.0.1 // indirect
 	github.com/cespare/xxhash/v2 v2.3.0 // indirect
 	github.com/golang/protobuf v1.5.4 // indirect
-	github.com/gorilla/websocket v1.4.2 // indirect
+	github.com/gomodule/redigo v1.8.2 // indirect
 	github.com/grpc-ecosystem/go-grpc-middleware v1.0.0 // indirect
 	github.com/grpc-ecosystem/go-grpc-prometheus v1.2.0 // indirect
 	github.com/grpc-ecosystem/grpc-gateway/v2 v2.28.0 // indirect
